@@ -357,7 +357,15 @@ func Normalize(dir string, known map[string]bool, env []string) (map[string][]by
 			unknown[d] = true
 		}
 	}
-	if len(unknown) == 0 {
+	unknownTypes := false
+	if tds, err := TypeDecls(dir); err == nil {
+		for _, t := range tds {
+			if !KnownTypes[t] {
+				unknownTypes = true
+			}
+		}
+	}
+	if len(unknown) == 0 && !unknownTypes {
 		return nil, nil, nil
 	}
 	overlay := map[string][]byte{}
@@ -373,12 +381,10 @@ func Normalize(dir string, known map[string]bool, env []string) (map[string][]by
 					unknown[d] = true
 				}
 			}
-			if len(unknown) == 0 {
-				return overlay, notes, nil
-			}
 		}
 	}
 	failed := map[string]bool{}
+	mvCounter := 0
 	for iter := 0; iter < 60; iter++ {
 		cfg := &packages.Config{
 			Mode:    packages.NeedName | packages.NeedFiles | packages.NeedSyntax | packages.NeedTypes | packages.NeedTypesInfo | packages.NeedImports | packages.NeedDeps | packages.NeedCompiledGoFiles,
@@ -420,6 +426,22 @@ func Normalize(dir string, known map[string]bool, env []string) (map[string][]by
 		}
 		if len(helpers) == 0 {
 			break
+		}
+		// a method value of a helper becomes a literal that calls it (the call is then inlined below)
+		if fn, out, note := hoistLiteralReceiver(pkg, func(f *types.Func) bool { return helpers[f] != nil }, content, failed, &mvCounter); fn != "" {
+			overlay[fn] = out
+			notes = append(notes, note)
+			continue
+		}
+		if fn, out, note := wrapFuncValue(pkg, func(f *types.Func) bool { return helpers[f] != nil }, content, failed, &mvCounter); fn != "" {
+			overlay[fn] = out
+			notes = append(notes, note)
+			continue
+		}
+		if fn, out, note := wrapMethodValue(pkg, func(f *types.Func) bool { return helpers[f] != nil }, content, failed, &mvCounter); fn != "" {
+			overlay[fn] = out
+			notes = append(notes, note)
+			continue
 		}
 		// first call site of a helper that has not failed yet
 		var callFile *ast.File
@@ -520,6 +542,53 @@ func Normalize(dir string, known map[string]bool, env []string) (map[string][]by
 			lit = " (as a function literal)"
 		}
 		notes = append(notes, "inlined the call of the unknown helper "+key+lit)
+	}
+	if len(overlay) > 0 && os.Getenv("BB_NODELIT") == "" {
+		ov, ns := delitOverlay(dir, overlay, env)
+		overlay = ov
+		notes = append(notes, ns...)
+	}
+	// local variables of unknown struct types that only bundle values: one variable per field
+	if unknownTypes && os.Getenv("BB_NOSRA") == "" {
+		tried := map[string]bool{}
+		for iter := 0; iter < 40; iter++ {
+			cfg := &packages.Config{
+				Mode:    packages.NeedName | packages.NeedFiles | packages.NeedSyntax | packages.NeedTypes | packages.NeedTypesInfo | packages.NeedImports | packages.NeedDeps | packages.NeedCompiledGoFiles,
+				Dir:     dir,
+				Env:     env,
+				Overlay: overlay,
+				Tests:   false,
+			}
+			pkgs, err := packages.Load(cfg, ".")
+			if err != nil || len(pkgs) != 1 || len(pkgs[0].Errors) > 0 {
+				break
+			}
+			content := func(fname string) []byte {
+				if b, ok := overlay[fname]; ok {
+					return b
+				}
+				b, _ := os.ReadFile(fname)
+				return b
+			}
+			fn, out, note := scalarReplace(pkgs[0], KnownTypes, content, tried)
+			if fn == "" {
+				break
+			}
+			prev, had := overlay[fn]
+			overlay[fn] = out
+			cfg.Overlay = overlay
+			if chk, err := packages.Load(cfg, "."); err != nil || len(chk) != 1 || len(chk[0].Errors) > 0 {
+				// does not type-check: undone
+				if had {
+					overlay[fn] = prev
+				} else {
+					delete(overlay, fn)
+				}
+				notes = append(notes, "not applied (does not type-check): "+note)
+				continue
+			}
+			notes = append(notes, note)
+		}
 	}
 	if len(overlay) == 0 {
 		return nil, notes, nil
